@@ -61,6 +61,16 @@ def check_templates(chk, F, P, malleable, rid="R01.1", mode="sound"):
             if mode == "complete":
                 for tag, g, w in (("sat", gs, want_sat), ("dissat", gd, want_dis)):
                     missing = g in (spec.IMPOSSIBLE, satmodel.UNAVAILABLE) and w != spec.IMPOSSIBLE
+                    if not missing and isinstance(g, list) and isinstance(w, list):
+                        # a template that needs a child's (dis)satisfaction where the canonical one does not is missing
+                        # whenever that child cannot provide it
+                        def parts(t):
+                            return set(x for x in t if isinstance(x, tuple) and x and x[0] in ("S", "D"))
+                        extra = parts(g) - parts(w)
+                        chk.obligation(rid, not extra, "%s|%s|needs" % (v, tag),
+                                       "%s template of %s is %r: it needs %r of a child, the canonical witness %r does not - the "
+                                       "fragment is reported un(dis)satisfiable whenever that child is" % (tag, v, g, sorted(extra), w),
+                                       where, detail={"variant": v, "got": repr(g), "want": repr(w)})
                     chk.obligation(rid, not missing, "%s|%s" % (v, tag),
                                    "%s template of %s is %s with all assets available, but the specification "
                                    "has the canonical witness %r: satisfiable scripts are reported unspendable"
